@@ -442,11 +442,11 @@ func init() {
 			var us []vh.Unit
 			ids3 := []string{"A", "B", "W"}
 			if tier == "thorough" {
-				for s := 0; s < 20; s++ {
-					us = append(us, c05StoreBFS(vh.Memory, ids3, 5, s, 20))
+				for s := 0; s < 40; s++ {
+					us = append(us, c05StoreBFS(vh.Memory, ids3, 6, s, 40))
 				}
-				for s := 0; s < 14; s++ {
-					us = append(us, c05StoreBFS(vh.Badger, []string{"A", "B"}, 4, s, 14))
+				for s := 0; s < 40; s++ {
+					us = append(us, c05StoreBFS(vh.Badger, []string{"A", "B"}, 5, s, 40))
 				}
 			} else {
 				for s := 0; s < 4; s++ {
@@ -475,7 +475,7 @@ func init() {
 				us = append(us, c05StoreRace(d, []string{"n-1", "n", "n+1"}, bound-1))
 				us = append(us, c05PoolRace(d, 2, bound-1))
 				pd := 3
-				if tier == "thorough" && d == vh.Memory {
+				if tier == "thorough" {
 					pd = 4
 				}
 				us = append(us, c05PoolBFS(d, pd))
